@@ -20,30 +20,31 @@ TRUSTED = ["rustc MIR construction / drop elaboration / trait resolution (nightl
 def run(ctx):
     facts = ctx.facts
     roles.bind(facts)
-    sw_write = method(facts, T_WRITE, SW, "write")
-    sw_flush = method(facts, T_WRITE, SW, "flush")
+    import turn_rules as T, parser_rules as PRS, inline, absint
+    import queue_rules as Q
+    WC = T.writer_chain(facts)
+    seq_file = WC.file
+    swb_next = WC.next
+    swb_new = WC.ctor
     sw_drop = method(facts, T_DROP, SW, "drop")
-    swb_next = method(facts, T_ITER, SWB, "next")
-    swb_new = roles.inherent(facts, SWB, "new")
 
-    # ---- C01.1 who may touch the shared writer handle
-    allowed = {sw_write.id, sw_flush.id, swb_next.id}
+    # ---- C01.1 who may touch the shared writer handle (the Arc<Mutex<W>> fields of the turn-taking types)
     sites = 0
     for adt in (SW, SWB):
-        for f, bb, kind in facts.field_reads(adt, "writer"):
-            sites += 1
-            ctx.touch(f)
-            ctx.ob("C01.1", "%s.writer|read|%s" % (adt, f.id),
-                   "the Arc<Mutex<W>> write half is read only by SequentialWriter::{write,flush} and the builder's next (clone)",
-                   f.id in allowed, f.loc(bb), None if f.id in allowed else "unexpected reader of the shared write half (%s)" % kind)
-        for f, bb, kind, x in facts.field_writes(adt, "writer"):
-            sites += 1
-            ok = (kind == "construct" and f.id in (swb_new.id, swb_next.id))
-            ctx.ob("C01.1", "%s.writer|%s|%s" % (adt, kind, f.id),
-                   "the Arc<Mutex<W>> write half is initialised only by SequentialWriterBuilder::new / next",
-                   ok, f.loc(bb), None if ok else "unexpected %s of the shared write half" % kind)
+        flds = [x["name"] for x in facts.adt(adt)["variants"][0]["fields"] if re.search(r"Arc<std::sync::Mutex<", x["ty"])]
+        ctx.ob("C01.1", "%s|shared-handle" % adt, "the type refers to the socket write half through one Arc<Mutex<..>>", len(flds) == 1, facts.adt(adt)["file"])
+        for fld in flds:
+            for f, bb, kind in facts.field_reads(adt, fld):
+                sites += 1
+                ctx.touch(f)
+                ok = f.file == seq_file
+                ctx.ob("C01.1", "%s.%s|read|%s" % (adt, fld, f.id), "the Arc<Mutex<W>> write half is read only by the turn-taking module itself", ok, f.loc(bb), None if ok else "unexpected reader of the shared write half (%s)" % kind)
+            for f, bb, kind, x in facts.field_writes(adt, fld):
+                sites += 1
+                ok = kind == "construct" and f.file == seq_file
+                ctx.ob("C01.1", "%s.%s|%s|%s" % (adt, fld, kind, f.id), "the Arc<Mutex<W>> write half is initialised only when the builder or a writer is constructed, inside the turn-taking module", ok, f.loc(bb),
+                       None if ok else "unexpected %s of the shared write half" % kind)
     ctx.floor("C01.1 sites", sites, 4)
-    # no function returns, and no type stores, a guard of that mutex
     for k, f in sorted(facts.local_fns.items()):
         rty = f.local_ty(0)
         bad = "MutexGuard" in rty and ("BufWriter" in rty or re.search(r"MutexGuard<'_, W>", rty))
@@ -54,109 +55,13 @@ def run(ctx):
             for fl in v["fields"]:
                 if "MutexGuard" in fl["ty"]:
                     ctx.ob("C01.1", "guard-stored|%s.%s" % (aid, fl["name"]), "no type stores a mutex guard", False, "%s:%d" % (a["file"], a["line"]))
+    # only the turn-taking module locks that mutex
+    for f, bb, t in facts.all_calls(lambda t: call_is(t, LOCK)):
+        if re.search(r"BufWriter|SequentialWriter|Mutex<W>", " ".join(t.get("arg_tys") or [])):
+            ctx.ob("C01.1", "lock-site|%s" % f.id, "the socket-writer mutex is locked only inside the turn-taking module", f.file == seq_file, f.loc(bb))
 
-    # ---- C01.2 every path to the lock passes the token wait
-    for f in (sw_write, sw_flush):
-        ctx.touch(f)
-        locks = f.call_blocks(lambda t: call_is(t, LOCK))
-        ctx.require(locks, "C01.2: no Mutex::lock in %s" % f.id)
-        recvs = [bb for bb, t in f.calls() if call_is(t, RECV) and "trigger" in arg_origin_fields(f, t)]
-        # None-edges of discriminant tests on the trigger slot
-        none_targets = set()
-        trig_switches = 0
-        for bb in sorted(f.live_blocks()):
-            sw = switch_on_discr(f, bb)
-            if not sw:
-                continue
-            rv, m, otherwise, rest = sw
-            lt = f.local_ty(rv["pl"]["l"]) if not rv["pl"]["p"] else ""
-            o = f.origin_place(rv["pl"])
-            if "trigger" not in origin_fields(o):
-                continue
-            trig_switches += 1
-            if "None" in m:
-                none_targets.add(m["None"])
-            elif "None" in rest:
-                none_targets.add(otherwise)
-        if not (recvs and trig_switches):
-            for lb in locks:
-                ctx.ob("C01.2", "%s|lock" % f.id, "Mutex::lock on the shared writer is reachable only after the predecessor's token was received (or no predecessor exists)", False, f.loc(lb),
-                       "no wait on the trigger channel in this function (recv calls=%d, tests of the trigger slot=%d)" % (len(recvs), trig_switches))
-            continue
-        # the block *after* a successful recv (its normal target) is what "passing the wait" means
-        passed = {f.normal_target(bb) for bb in recvs}
-        reach = f.reach([0], blocked=passed | none_targets, unwind=False)
-        for lb in locks:
-            ctx.paths += 1
-            ok = lb not in reach
-            detail = None
-            if not ok:
-                detail = "path to the lock that neither waits for the predecessor token nor sees an empty trigger: %s" % (
-                    f.path([0], [lb], blocked=passed | none_targets, unwind=False))
-            ctx.ob("C01.2", "%s|lock" % f.id, "Mutex::lock on the shared writer is reachable only after the predecessor's token was received (or no predecessor exists)", ok, f.loc(lb), detail)
-        # stores to self.trigger happen only after the wait as well
-        for ff, bb, kind, x in facts.field_writes(SW, "trigger"):
-            if ff.id != f.id or kind not in ("assign", "calldest"):
-                continue
-            ok = bb not in reach
-            ctx.ob("C01.2", "%s|trigger-store" % f.id, "the trigger slot is cleared only after its token was received", ok, f.loc(bb))
-
-    # ---- C01.3 the token is sent by Drop only, and always
-    senders = [(f, bb, t) for f, bb, t in facts.all_calls(lambda t: call_is(t, SEND)) if "on_finish" in arg_origin_fields(f, t)]
-    ctx.require(senders, "C01.3: no send on on_finish found")
-    for f, bb, t in senders:
-        ok = f.id == sw_drop.id
-        ctx.ob("C01.3", "send|%s" % f.id, "the successor's token is sent only from <SequentialWriter as Drop>::drop", ok, f.loc(bb))
-    for f, bb, kind in facts.field_reads(SW, "on_finish"):
-        ok = f.id == sw_drop.id
-        ctx.ob("C01.3", "on_finish-read|%s" % f.id, "the on_finish sender is used only by the writer's Drop", ok, f.loc(bb))
-    shared.writer_drop_waits_turn(ctx, "C01.3")
-    send_blocks = {bb for f, bb, t in senders if f.id == sw_drop.id}
-    rets = sw_drop.returns()
-    reach = sw_drop.reach([0], blocked=send_blocks, unwind=False)
-    ctx.touch(sw_drop, paths=1)
-    ctx.ob("C01.3", "%s|always-sends" % sw_drop.id, "every normal path through the writer's Drop sends the token",
-           not any(r in reach for r in rets), "%s:%d" % (sw_drop.file, sw_drop.line))
-
-    # ---- C01.4 chaining in the builder (symbolic provenance)
-    ctx.touch(swb_next)
-    paths = symex.enumerate_paths(swb_next)
-    ctx.paths += len(paths)
-    ctx.require(paths, "C01.4: no path through %s" % swb_next.id)
-    for pi, p in enumerate(paths):
-        st = symex.run_path(swb_next, p)
-        ret = st.read_key((0,))
-        sw_val = ret[1] if ret[0] == "some" else None
-        ok_some = sw_val is not None and sw_val[0] == "agg" and sw_val[1] == SW
-        ctx.ob("C01.4", "%s|returns-writer|p%d" % (swb_next.id, pi), "the builder always returns Some(writer)", ok_some,
-               "%s:%d" % (swb_next.file, swb_next.line), None if ok_some else symex.sym_str(ret))
-        if not ok_some:
-            continue
-        flds = sw_val[3]
-        trig, onf, wr = flds.get("trigger"), flds.get("on_finish"), flds.get("writer")
-        nt = st.read_key((1, "*", ".next_trigger"))
-        ok_trig = trig == ("init", (1, "*", ".next_trigger"))
-        ctx.ob("C01.4", "%s|trigger=prev.next_trigger|p%d" % (swb_next.id, pi),
-               "the new writer waits on the receiver left behind by the previous draw", ok_trig,
-               "%s:%d" % (swb_next.file, swb_next.line), None if ok_trig else "trigger = " + symex.sym_str(trig))
-        ok_chain = (onf is not None and onf[0] == "tx" and nt[0] == "some" and nt[1][0] == "rx" and nt[1][1] == onf[1])
-        ctx.ob("C01.4", "%s|on_finish-pairs-next_trigger|p%d" % (swb_next.id, pi),
-               "the new writer's on_finish sender and the builder's stored next_trigger are the two ends of one fresh channel",
-               ok_chain, "%s:%d" % (swb_next.file, swb_next.line),
-               None if ok_chain else "on_finish=%s next_trigger=%s" % (symex.sym_str(onf), symex.sym_str(nt)))
-        ok_wr = wr is not None and wr[0] == "clone" and wr[2] == (1, "*", ".writer")
-        ctx.ob("C01.4", "%s|writer=clone(self.writer)|p%d" % (swb_next.id, pi),
-               "every writer shares the builder's one Arc<Mutex<W>>", ok_wr, "%s:%d" % (swb_next.file, swb_next.line),
-               None if ok_wr else "writer = " + symex.sym_str(wr))
-        nchan = sum(1 for c in st.calls if c[1] == CHANNEL)
-        ctx.ob("C01.4", "%s|one-channel|p%d" % (swb_next.id, pi), "exactly one channel per draw", nchan == 1, "%s:%d" % (swb_next.file, swb_next.line))
-    # builder starts with no predecessor
-    for f, bb, s in facts.constructions(SWB):
-        v = symex.run_path(f, f.path([0], [bb], unwind=False) or [0])
-        st_val = v.rvalue(s["rhs"])
-        nt0 = st_val[3].get("next_trigger") if st_val[0] == "agg" else None
-        ctx.ob("C01.4", "%s|initial-next_trigger" % f.id, "a fresh builder has no predecessor token (next_trigger = None)",
-               nt0 == ("none",), f.loc(bb))
+    # ---- C01.2 / C01.3 / C01.4 the chain itself, by symbolic evaluation of its API
+    T.rule_writer_chain(ctx, "C01.2", "C01.3", "C01.4")
 
     # ---- C01.5 no duplication
     for adt in (SW, SWB, REQ):
@@ -165,91 +70,91 @@ def run(ctx):
     cons = facts.constructions(SW)
     ctx.require(cons, "C01.5: no construction of SequentialWriter found")
     for f, bb, s in cons:
-        ctx.ob("C01.5", "construct|%s" % f.id, "SequentialWriter is constructed only by the builder's next", f.id == swb_next.id, f.loc(bb))
+        ctx.ob("C01.5", "construct|%s" % f.id, "writers are constructed only inside the turn-taking module (by the builder's draw)", f.file == seq_file, f.loc(bb))
 
     # ---- C01.6 one writer per parsed request, drawn in parse order by the connection thread
-    cc_next = method(facts, T_ITER, CC, "next")
-    cc_read = roles.inherent(facts, CC, "read")
+    PM = PRS.pmodel(facts)
     draws = facts.callers_of(swb_next.id)
     ctx.floor("C01.6 draw sites", len(draws), 2)
-    new_request_calls = [(bb, t) for bb, t in cc_read.calls() if call_matches(t, r"^request::new_request$")]
-    ctx.require(len(new_request_calls) == 1, "C01.6: expected one new_request call in read, found %d" % len(new_request_calls))
-    nr_bb, nr_t = new_request_calls[0]
     for f, bb, t in draws:
         ctx.touch(f, calls=1)
-        ok_where = f.id in (cc_next.id, cc_read.id)
-        ctx.ob("C01.6", "draw|%s|%s" % (f.id, shared.arm_label(f, bb) if f.id == cc_next.id else "request"),
-               "writers are drawn only by the connection thread's parser (ClientConnection::{read,next})", ok_where, f.loc(bb))
-        if f.id == cc_read.id:
-            ok = (not f.in_loop(bb)) and f.dominates(bb, nr_bb, unwind=False)
-            ctx.ob("C01.6", "draw-once|%s" % f.id, "read() draws exactly one writer per request, outside any loop, before building the Request", ok, f.loc(bb))
-            # it flows into new_request's writer argument
-            wr = f.origin(nr_t["args"][-1])
-            ok2 = any(x[0] == "call" and x[3] == bb for x in origin_walk(wr))
-            ctx.ob("C01.6", "draw-flows|%s" % f.id, "the drawn writer is the one handed to new_request", ok2, f.loc(nr_bb), None if ok2 else origin_str(wr))
-    builders = [(f, bb, s) for f, bb, s in facts.constructions(SWB)]
-    for f, bb, s in builders:
-        ctx.ob("C01.6", "builder-construct|%s" % f.id, "one builder per connection", f.id == swb_new.id, f.loc(bb))
+        ctx.ob("C01.6", "draw|%s" % f.id, "writers are drawn only by the connection thread's parser", f.file == PM.file, f.loc(bb))
+    rd = PM.rd
+    nrc = [(bb, t) for bb, t in rd.calls() if call_matches(t, r"^request::new_request$")]
+    dr = [bb for bb, t in rd.calls() if call_name(t) == swb_next.id]
+    ok = len(nrc) == 1 and len(dr) == 1 and not rd.in_loop(dr[0]) and rd.dominates(dr[0], nrc[0][0], unwind=False)
+    ctx.ob("C01.6", "draw-once|%s" % PM.read_def, "the head reader draws exactly one writer per request, outside any loop, before building the Request", ok, "%s:%d" % (rd.file, rd.line))
+    if ok:
+        # the drawn writer is the one handed to new_request: evaluate from the draw to the call
+        t0 = rd.term(dr[0])
+        st = symex.Sym(rd)
+        DRAWN = ("sym", "drawn-writer")
+        st.write_key(pl_key(t0["dest"]), ("some", DRAWN))
+        ps = [p for p in absint.explore(rd, t0["target"], st, stop=lambda bb, t, s: "built" if bb == nrc[0][0] else None) if p.end[0] == "stop"]
+        flows = bool(ps) and all(any(absint.contains(absint.deep(p.state, p.state.operand(a)), DRAWN) for a in rd.term(nrc[0][0])["args"]) for p in ps)
+        ctx.ob("C01.6", "draw-flows|%s" % PM.read_def, "the drawn writer is the one handed to new_request", flows, rd.loc(nrc[0][0]))
+    for f, bb, s in facts.constructions(SWB):
+        ctx.ob("C01.6", "builder-construct|%s" % f.id, "the builder is constructed only by its constructor", f.file == seq_file, f.loc(bb))
     new_calls = facts.callers_of(swb_new.id)
-    cc_new = roles.inherent(facts, CC, "new")
+    cc_ctor = sorted({g.id for g, bb, s in facts.constructions(CC)})
     for f, bb, t in new_calls:
-        ctx.ob("C01.6", "builder-new|%s" % f.id, "the builder is created once, in ClientConnection::new", f.id == cc_new.id and not f.in_loop(bb), f.loc(bb))
-    ctx.require(new_calls, "C01.6: SequentialWriterBuilder::new has no caller")
+        ctx.ob("C01.6", "builder-new|%s" % f.id, "one builder per connection: it is created once, where the ClientConnection is built", f.id in cc_ctor and not f.in_loop(bb), f.loc(bb))
+    ctx.require(new_calls, "C01.6: the writer builder's constructor has no caller")
 
     # ---- C01.7 no self-deadlock (shared with C10.4)
-    n = shared.own_deadlock_sites(ctx, "C01.7")
+    full = inline.inlined(facts, PM.cc_next.id, stop=lambda d: facts.fns[d].rec.get("local") and (not PM.same_file(d) or "{closure#" in d))
+    n = shared.own_deadlock_sites(ctx, "C01.7", fns=[full])
     ctx.floor("C01.7 turn-waiting call sites in the parser", n, 3)
 
-    # ---- C01.8 respond_impl: raw_print -> flush -> writer dropped
-    respond_impl = find_respond_impl(facts)
-    ctx.touch(respond_impl)
-    f = respond_impl
-    rp = f.call_blocks(lambda t: call_matches(t, r"response::Response::<R>::raw_print$"))
-    fl = f.call_blocks(lambda t: t.get("callee") == "std::io::Write::flush")
-    ctx.require(rp, "C01.8: raw_print not found in %s" % f.id)
-    if not fl:
-        ctx.ob("C01.8", "%s|flush-after-print" % f.id, "after the response is printed the writer is flushed on every non-error path before returning", False, f.loc(rp[0]), "respond_impl never flushes")
-    resid = set(f.call_blocks(lambda t: t.get("callee") == "std::ops::FromResidual::from_residual"))
-    after_rp = [f.normal_target(b) for b in rp]
-    reach = f.reach(after_rp, blocked=set(fl) | resid, unwind=False)
-    ok = not any(r in reach for r in f.returns())
-    ctx.paths += 1
-    ctx.ob("C01.8", "%s|flush-after-print" % f.id, "after the response is printed the writer is flushed on every non-error path before returning",
-           ok, f.loc(rp[0]), None if ok else "path: %s" % f.path(after_rp, f.returns(), blocked=set(fl) | resid, unwind=False))
-    # the extracted writer is a local that is dropped by this frame on every path (never leaked / stored)
-    ex = [(bb, t) for bb, t in f.calls() if pl_is_local(t["dest"]) and "Box<dyn std::io::Write" in f.local_ty(t["dest"]["l"])]
-    ctx.require(ex, "C01.8: extracted writer local not found")
-    wl = ex[0][1]["dest"]["l"]
-    moved = []
-    for bb, t in f.calls():
-        for a in t["args"]:
-            if a["k"] == "move" and op_local(a) == wl:
-                moved.append(bb)
-    for bb, i, s in f.assigns():
-        for p, kind in rvalue_places(s["rhs"]):
-            if kind == "move" and not p["p"] and p["l"] == wl:
-                moved.append(bb)
-    dropbbs = {bb for bb, t in f.drops() if not t["pl"]["p"] and t["pl"]["l"] == wl}
-    start = [f.normal_target(ex[0][0])]
-    reach = f.reach(start, blocked=dropbbs, unwind=True)
-    exits = [b for b in reach if f.term(b)["t"] in ("return", "resume")]
-    ok = not moved and not exits
-    ctx.ob("C01.8", "%s|writer-dropped-here" % f.id, "the extracted writer is owned by respond_impl's frame and dropped on every exit (normal, error, unwind), after the flush",
-           ok, f.loc(ex[0][0]), None if ok else "moved at %s, exits without drop %s" % (moved, exits))
-    ok = bool(fl) and all(any(f.dominates(flb, d, unwind=False) for flb in fl) or f.blocks[d]["cleanup"] or d in f.reach([x for r in resid for x in f.succs(r, False)], unwind=False) for d in dropbbs)
-    ctx.ob("C01.8", "%s|drop-after-flush" % f.id, "on the success path the writer is dropped only after the flush", ok, f.loc(fl[0]) if fl else f.loc(rp[0]))
+    # ---- C01.8 respond: raw_print -> flush -> writer dropped
+    respond_rules(ctx, "C01.8")
     return {}
 
 
-def find_respond_impl(facts):
-    """the private helper that consumes the response writer and prints a response: the unique
-    Request method with &mut self that calls raw_print and is called by respond and Drop"""
-    cands = []
-    for k, f in facts.local_fns.items():
-        if f.rec.get("impl_self_adt") == REQ and f.rec.get("impl_trait") is None:
-            if f.call_blocks(lambda t: call_matches(t, r"raw_print$")) and not f.rec.get("vis_pub") \
-                    and f.local_ty(1).startswith("&mut ") and f.local_ty(0).startswith("std::result::Result"):
-                cands.append(f)
-    if len(cands) != 1:
-        raise CheckerError("cannot bind respond_impl role (%d candidates)" % len(cands))
-    return cands[0]
+WRITER = ("sym", "the-response-writer")
+
+
+def respond_rules(ctx, rule):
+    """Request::respond with its private helpers spliced in, started with the response slot holding a writer:
+    on every path on which the response was printed successfully the writer is flushed afterwards, and on every path the
+    writer is destroyed before respond returns (which is what releases the next response)"""
+    import inline, absint
+    import queue_rules as Q
+    facts = ctx.facts
+    r0 = facts.fn("request::Request::respond")
+    same = lambda d: facts.fns[d].rec.get("local") and facts.fns[d].file == r0.file
+    f = inline.inlined(facts, r0.id, stop=lambda d: facts.fns[d].rec.get("local") and not same(d), extern_ok=Q.std_small)
+    ctx.touch(f)
+    where = "%s:%d" % (f.file, f.line)
+    slot = shared.find_slot_paths(facts, REQ, r"Option<std::boxed::Box<.?dyn std::io::Write")
+    ctx.require(len(slot) == 1, "%s: response-writer slot of Request" % rule)
+    st = symex.Sym(f)
+    st.write_key((1,) + tuple("." + x for x in slot[0]), ("some", WRITER))
+    ps = [p for p in absint.explore(f, 0, st, max_paths=4000) if p.end[0] not in ("diverge", "resume", "terminate", "unreachable")]
+    ctx.paths += len(ps)
+    bad_flush, bad_drop, n_print = [], [], 0
+    for p in ps:
+        evs = p.events
+        prints = [i for i, e in enumerate(evs) if e[1] == "call" and re.search(r"response::Response::<R>::raw_print$", e[2])]
+        if not prints:
+            continue
+        n_print += 1
+        # did the print succeed on this path?  (its Err makes respond return early)
+        pr = evs[prints[0]]
+        ok_print = True
+        for bb, c in p.conds:
+            if c and c[0] == "variant" and c[2] in ("Err", "Break") and absint.mentions_call(c[3], pr[4]):
+                ok_print = False
+        flushed = [i for i, e in enumerate(evs) if i > prints[0] and e[1] == "call" and ((e[6] or "") == "std::io::Write::flush" or re.search(r"Write>::flush$", e[2]))
+                   and any(absint.contains(absint.deep(p.state, a), WRITER) or (d is not None and absint.contains(d, WRITER)) for a, d in zip(e[3], e[5]))]
+        dropped = [i for i, e in enumerate(evs) if e[1] == "drop" and absint.contains(e[4], WRITER)]
+        if ok_print and not flushed:
+            bad_flush.append(Q._ret_str(p)[:60])
+        if not dropped:
+            bad_drop.append(Q._ret_str(p)[:60])
+        elif ok_print and flushed and min(dropped) < flushed[0]:
+            bad_drop.append("writer destroyed before the flush")
+    ctx.ob(rule, "%s|prints" % r0.id, "respond prints the response into the request's writer", n_print > 0, where)
+    ctx.ob(rule, "%s|flush-after-print" % r0.id, "after the response is printed the writer is flushed on every non-error path before returning", n_print > 0 and not bad_flush, where, None if not bad_flush else str(bad_flush[:3]))
+    ctx.ob(rule, "%s|writer-dropped-here" % r0.id, "the writer taken out of the request is destroyed before respond returns on every path (normal and error), and after the flush", n_print > 0 and not bad_drop, where,
+           None if not bad_drop else str(bad_drop[:3]))
